@@ -73,7 +73,7 @@ def _setups_case(case):
             ndata = size - 1 if plot else size
             adm = _admissible(min(npts[0], npts[3]), min(npts[2], npts[3]), ndata)
             for draw in (sorted(set([0, size // 2, size - 1])) if plot else [0]):
-                for layout in ('v_parallel', 'poloidal'):
+                for layout in (('v_parallel', 'poloidal') if case['entry'] == 'setupCylindricalGrid' else ('flux_surface', 'v_parallel')):
                     tag = '%s npts %r world %d plot rank %s layout %s' % (case['entry'], npts, size, draw if plot else None, layout)
 
                     def fn(r, draw=draw, layout=layout):
